@@ -97,6 +97,7 @@ fn main() {
                 cfg.handler = true; cfg.fallbacks = true;
                 if std::env::args().any(|a| a == "--unsafe") { for b in cfg.bindings.iter_mut() { b.1 = false; } }
                 if std::env::args().any(|a| a == "--safe") { for b in cfg.bindings.iter_mut() { b.1 = true; } }
+                if std::env::args().any(|a| a == "--unbound") { cfg.bindings.clear(); }
                 cfg.ext_ret = 3;
                 let mut h = match host::Host::new(&prog, &cfg) { Ok(h) => h, Err(r) => return vec![format!("construct failed: {}", r.brief())] };
                 let mut k = 0;
